@@ -611,6 +611,16 @@ class Lib:
             return pull_list
         if isinstance(srcv, VTuple):
             raise E.Unsupported("for over a tuple value")
+        if isinstance(srcv, VU):
+            # an opaque immutable sequence (e.g. a list held in a record):
+            # element k is ISEQ(u, k) for k < ILEN(u); every loop starts at 0
+            self._inner_axioms(st)
+
+            def pull_seq():
+                if not st.branch(K() < ILEN(srcv.t), f"forseq@{line}"):
+                    stop()
+                return VU(ISEQ(srcv.t, K()))
+            return pull_seq
         if isinstance(srcv, (VIter, VU)):
             node._iter_src = True
 
@@ -814,6 +824,21 @@ class Lib:
     def sp_tfcall(self, st, node):
         from .streams import _sp_tfcall
         return _sp_tfcall(self, st, node)
+
+    def sp_sys_byteorder(self, st, node):
+        return VU(z3.Const("SYS_BYTEORDER", U))
+
+    def sp_libcall(self, st, node):
+        from .streams import _sp_libcall
+        return _sp_libcall(self, st, node)
+
+    def sp_libmeth(self, st, node):
+        from .streams import _sp_libmeth
+        return _sp_libmeth(self, st, node)
+
+    def sp_attr(self, st, node):
+        from .streams import _sp_attr
+        return _sp_attr(self, st, node)
 
     def sp_lam(self, st, node):
         from .streams import _sp_lam
@@ -1585,6 +1610,8 @@ class Lib:
         if isinstance(v, (VInt, VBool)):
             from .engine import _as_int
             return VInt(_as_int(v))
+        if isinstance(v, VU):
+            return VInt(z3.Function("UINT", U, IntS)(v.t))
         raise self.E.Unsupported("int() of non-int")
 
     def b_bool(self, st, node):
@@ -1878,6 +1905,12 @@ class Lib:
         eng = self.eng
         u = eng.coerce(st, eng.eval(st, node.args[0]), "U")
         return VBool(st.ghost["IOPEN"][u])
+
+    def sp_iseq(self, st, node):
+        eng = self.eng
+        u = eng.coerce(st, eng.eval(st, node.args[0]), "U")
+        k = eng.eval(st, node.args[1]).t
+        return VU(ISEQ(u, k))
 
     def sp_ilen(self, st, node):
         eng = self.eng
